@@ -101,7 +101,7 @@ func lateReads(run *verdict.Run) {
 	dial := func(r *rand.Rand, id int, proto string) (*utls.UConn, *rig.RecConn) {
 		for attempt := 0; attempt < 6; attempt++ {
 			spec, _ := hello.CustomSpec(rand.New(rand.NewSource(r.Int63())), []string{proto})
-			spec.Extensions = append([]utls.TLSExtension{&utls.GenericExtension{Id: uint16(30000 + id%20000), Data: []byte{byte(attempt)}}}, spec.Extensions...)
+			spec.Extensions = append([]utls.TLSExtension{&utls.GenericExtension{Id: uint16(30100 + id%19000), Data: []byte{byte(attempt)}}}, spec.Extensions...)
 			uc, rc, err := rig.UTLSDial(addr, spec, "late.example", nil, nil)
 			if err == nil {
 				return uc, rc
